@@ -220,6 +220,11 @@ fn emit_space(fmt: &mut Fmt, out: &mut String) {
     } else {
         out.push(' ');
     }
+    if fmt.comments && fmt.chance(1, 8) {
+        // a comment in the middle of the run (white space on both sides of it)
+        out.push_str("<!--m-->");
+        out.push(' ');
+    }
     if comment_after {
         out.push_str("<!-- d -->");
     }
